@@ -1561,7 +1561,7 @@ func init() {
 		if nt == 0 {
 			nt = 1200
 			if c.thorough() {
-				nt = 120000
+				nt = 30000
 			}
 		}
 		mm := []string{"tight", "spaced", "loose", "mixed"}
